@@ -76,11 +76,19 @@ class SQLLiteQueryBuilder(QueryBuilder):
 
             querystring += self._set_sql(ctx)
 
+            from_tables = self._from
             if self._joins:
-                self._from.append(self._update_table.as_(self._update_table.get_table_name() + "_"))
+                # rendering must not modify the query: build the extended FROM list locally
+                from_tables = [
+                    *self._from,
+                    self._update_table.as_(self._update_table.get_table_name() + "_"),
+                ]
 
-            if self._from:
-                querystring += self._from_sql(ctx)
+            if from_tables:
+                from_ctx = ctx.copy(subquery=True, with_alias=True)
+                querystring += " FROM {selectable}".format(
+                    selectable=",".join(clause.get_sql(from_ctx) for clause in from_tables)
+                )
             if self._joins:
                 querystring += " " + " ".join(join.get_sql(ctx) for join in self._joins)
 
